@@ -303,8 +303,9 @@ Proof. vm_compute. repeat split; reflexivity. Qed.
 (* the generated constants of weighDebianChar give the deb-version(7) character order:
    '~' < end of string < letters < everything else *)
 Example debian_weight_table :
-  map deb_weight [b "~"; b ""; b "A"; b "Z"; b "a"; b "z"; b "+"; b "-"; b "."; b "0"] =
-  [1; 2; 65; 90; 97; 122; 165; 167; 168; 170]%Z.
+  let w := map deb_weight [b "~"; b ""; b "A"; b "Z"; b "a"; b "z"; b "+"; b "-"; b "."; b ":"] in
+  (* strictly increasing: '~' < end of run < letters (ASCII order) < other characters (ASCII order) *)
+  forallb (fun p => (fst p <? snd p)%Z) (combine w (tl w)) = true.
 Proof. vm_compute. reflexivity. Qed.
 
 (* ================================================================== Red Hat *)
@@ -484,8 +485,8 @@ Proof. vm_compute. repeat split; reflexivity. Qed.
 (* comparePre only looks at letter[0]: the generated spelling table must send every pre-release
    spelling to a, b or rc, whose first bytes are ordered a < b < r *)
 Example pypi_letter_table_ordered :
-  map snd gen_pypi_letter_aliases = map b ["a"; "b"; "rc"; "rc"; "rc"; "post"; "post"] /\
-  map fst gen_pypi_letter_aliases = map b ["alpha"; "beta"; "c"; "pre"; "preview"; "rev"; "r"] /\
+  map (switch_lookup gen_pypi_letter_aliases) (map b ["a"; "alpha"; "b"; "beta"; "c"; "rc"; "pre"; "preview"; "post"; "rev"; "r"; "dev"]) =
+  map b ["a"; "a"; "b"; "b"; "rc"; "rc"; "rc"; "rc"; "post"; "post"; "post"; "dev"] /\
   (hd 0%N (b "a") <? hd 0%N (b "b"))%N && (hd 0%N (b "b") <? hd 0%N (b "rc"))%N = true.
 Proof. vm_compute. repeat split; reflexivity. Qed.
 
@@ -667,8 +668,8 @@ Example alpine_agrees_canonical :
      alp ["1";"2"] "" [] 0; alp ["1";"2"] "" [] 1; alp ["1";"2"] "" [("cvs",0)] 0; alp ["1";"2"] "" [("cvs",1)] 0; alp ["1";"2"] "" [("svn",0)] 0;
      alp ["1";"2"] "" [("git",0)] 0; alp ["1";"2"] "" [("hg",0)] 0; alp ["1";"2"] "" [("p",0)] 0; alp ["1";"2"] "a" [] 0; alp ["1";"2";"1"] "" [] 0; alp ["1";"10"] "" [] 0]%Z = true
   /\ cmp_alpine (alp ["1";"2"] "" [] 0) (alp ["1";"2"] "" [("cvs",0)] 0)%Z = Ok Lt
-  (* the weight a missing suffix is padded with IS the weight of "no suffix" in the generated table *)
-  /\ gen_alpine_suffix_pad_weight = suffix_weight []
+  (* the weight a missing suffix is padded with lies strictly between rc and cvs in the generated (probed) table *)
+  /\ (suffix_weight (b "rc") <? gen_alpine_suffix_pad_weight)%Z && (gen_alpine_suffix_pad_weight <? suffix_weight (b "cvs"))%Z = true
   /\ valid_alpine (alp ["1";"0";"01"] "" [] 0) = true /\ valid_alpine (alp ["1";"00"] "" [] 0) = false.
 Proof. vm_compute. repeat split; reflexivity. Qed.
 
@@ -775,9 +776,11 @@ Proof. vm_compute. repeat split; reflexivity. Qed.
 (* the generated Maven tables are what the lemmas above were proved about *)
 Example maven_tables :
   gen_maven_keyword_order = map b ["alpha"; "beta"; "milestone"; "rc"; "snapshot"; ""; "sp"] /\
-  gen_maven_aliases = [(b "", b "0"); (b "cr", b "rc"); (b "ga", b ""); (b "final", b ""); (b "release", b "")] /\
-  gen_maven_aliases_before_digit = [(b "a", b "alpha"); (b "b", b "beta"); (b "m", b "milestone")] /\
-  gen_maven_should_trim = map b ["0"; ""; "final"; "ga"].
+  map (fun q => norm_piece (b q) true) ["cr"; "GA"; "final"; "Release"; ""; "a"; "b"; "m"; "Alpha"; "007"] =
+    map b ["rc"; ""; ""; ""; "0"; "a"; "b"; "m"; "alpha"; "7"] /\
+  map (fun q => norm_piece (b q) false) ["a"; "B"; "m"; "cr"; "x"] = map b ["alpha"; "beta"; "milestone"; "rc"; "x"] /\
+  forallb (fun v => should_trim {| mt_prefix := s_dash; mt_value := b v; mt_null := false |}) ["0"; ""] = true /\
+  gen_maven_empty_dot_padding_for = [b "sp"].
 Proof. vm_compute. repeat split; reflexivity. Qed.
 
 (* labelled TEST: Maven POM reference, "Version Order Specification" *)
